@@ -329,6 +329,27 @@ Section Structure.
     rewrite py_slice_contiguous. cbn [clampn skipn]. now rewrite Nat.sub_0_r, firstn_all.
   Qed.
 
+  (* python slice semantics: element j of l[s] is element start + j*step of l (a valid position), and the
+     slice is complete: the next index would be past stop *)
+  Lemma py_slice_spec {A} (l l' : list A) (s : pyslice) :
+    py_slice l s = Some l' ->
+    exists start stop step, slice_bounds (length l) s = Some (start, stop, step) /\
+      (forall j, j < length l' ->
+         (0 <= start + Z.of_nat j * step < Z.of_nat (length l))%Z /\
+         nth_error l' j = nth_error l (Z.to_nat (start + Z.of_nat j * step))) /\
+      ((0 < step)%Z -> (stop <= start + Z.of_nat (length l') * step)%Z) /\
+      ((step < 0)%Z -> (start + Z.of_nat (length l') * step <= stop)%Z).
+  Proof.
+    unfold py_slice. destruct (slice_indices (length l) s) as [idx|] eqn:E; [|discriminate].
+    cbn [option_map]. intro H; inversion H; subst l'; clear H.
+    destruct (slice_indices_spec _ _ _ E) as (start & stop & step & B & R & Nth & Up & Down).
+    exists start, stop, step. rewrite select_length by exact R. split; [exact B|]. split; [|split; auto].
+    intros j Hj. destruct (nth_error idx j) as [p|] eqn:Ej; [|apply nth_error_None in Ej; lia].
+    pose proof (Nth _ _ Ej) as Hp. rewrite select_nth, Ej by exact R.
+    assert (p < length l) by (eapply Forall_forall in R; [exact R|eapply nth_error_In; eauto]).
+    split; [lia|]. rewrite <- Hp, Nat2Z.id. reflexivity.
+  Qed.
+
   (* --- slices of monitors --- *)
   Lemma getitem_slice_contents (m m' : monitor) (s : pyslice) :
     getitem_slice m s = Some m' ->
